@@ -82,6 +82,14 @@ def build_harness():
     return rc == 0, out
 
 
+def build_lsp_bin():
+    """the repository's own server binary (guard off), for tests that must include main.rs"""
+    with flock("cargo-repo"):
+        rc, out = sh(["cargo", "build", "--release", "-p", "lsp", "--offline"], cwd=REPO, timeout=1500,
+                     env={"CARGO_TARGET_DIR": os.path.join(BUILD, "cargo-repo")})
+    return rc == 0, out, os.path.join(BUILD, "cargo-repo", "release", "lsp")
+
+
 def build_lean(targets):
     with flock("lake"):
         rc, out = sh(["lake", "build"] + list(targets), cwd=LEAN, timeout=3000)
